@@ -403,3 +403,40 @@ pub fn c14_header_read_8() {
 pub fn c14_header_read_4() {
     header_read::<4>();
 }
+
+// Odd payloads with CONCRETE lengths. Kani/CBMC mis-models a copy of symbolic size into an array
+// that lives in coroutine state (bytes after the copied prefix read back as 0; reproduction in
+// /verif/tools/kani_memcpy_repro): with a symbolic payload length c14_write would therefore not see
+// a stale high byte in the padded last word if `write` were rewritten around a scratch word kept
+// across the await (seed S25). With the length concrete (and `write` the top-level future, so the
+// constant survives) the model is exact.
+fn write_odd<const LEN: usize>() {
+    fresh_mem();
+    let s: u16 = kani::any();
+    let l: u16 = kani::any();
+    kani::assume(u32::from(s) + u32::from(l) <= 0x7fff);
+    let p: [u8; 5] = kani::any();
+    let mut r = EepromRange::new(Mem::<8>(0), s, l);
+    let res = run_ready(r.write(&p[..LEN]));
+    kani::cover!(unsafe { WCNT } == (LEN + 1) / 2);
+    let k = check_write_log(s, l, LEN, &p);
+    assert!(matches!(res, Ok(w) if w.min(LEN) == (2 * k).min(LEN)));
+}
+
+//@ harness: c14_write_odd_concrete
+//@ property: C14
+//@ tier: quick
+//@ unwind: 5
+//@ timeout: 900
+//@ functions: EepromRange::new; EepromRange::write
+//@ bounds: payload lengths 1, 3 and 5 (concrete, one instance each) with symbolic bytes, any start word and window length with start+len <= 0x7fff
+//@ assumes: start_word + len_words <= 0x7fff
+#[kani::proof]
+#[kani::unwind(5)]
+pub fn c14_write_odd_concrete() {
+    match kani::any::<u8>() % 3 {
+        0 => write_odd::<1>(),
+        1 => write_odd::<3>(),
+        _ => write_odd::<5>(),
+    }
+}
